@@ -614,7 +614,7 @@ def check(line, out):
     first_written = None
     pending_pp = None   # PAT/PMT written to the first segment, checked once the opening frame is known
     session_versions = 0
-    carried = False
+    first_id = 0
     for i, o in enumerate(ops):
         k = o[0]
         S = sessions[sess] if 0 <= sess < len(sessions) else None
@@ -628,7 +628,14 @@ def check(line, out):
             first_written = None
             pending_pp = None
             session_versions = 0
-            carried = live in fsys
+            # a muxer that finds a live playlist carries on with its numbering (media sequence, segment ids)
+            first_id = 0
+            if live in fsys:
+                try:
+                    pl0 = parse_m3u8(bytes(fsys[live][0]))
+                    first_id = pl0["seq"] + len(pl0["segs"])
+                except M3u8Error:
+                    pass
         elif S is None:
             if k != "ra":
                 fails.append(("ops", "op %d (%s) before any session" % (i, k)))
@@ -642,8 +649,8 @@ def check(line, out):
             seg_writes[o[1]] = []
             created[sess].append(o[1])
             ids = [int(n.rsplit("-", 1)[1][:-3]) for n in created[sess]]
-            if ids != list(range(len(ids))):
-                fails.append(("loss", "op %d: segment ids of the session are %s" % (i, ids[-3:])))
+            if ids != list(range(first_id, first_id + len(ids))):
+                fails.append(("loss", "op %d: segment ids of the session are %s, expected to start at %d" % (i, ids[-3:], first_id)))
         elif k == "wr":
             b = hexb(o[2])
             if o[1] in fsys:
@@ -688,8 +695,8 @@ def check(line, out):
                     try:
                         pl = parse_m3u8(bytes(fsys[live][0]))
                         if last_seq is not None and pl["seq"] < last_seq:
-                            fails.append(("seq-republish" if carried and session_versions == 0 else "seq",
-                                          "op %d: media sequence went from %d to %d" % (i, last_seq, pl["seq"])))
+                            fails.append(("seq", "op %d: media sequence went from %d to %d%s" % (
+                                i, last_seq, pl["seq"], " (first playlist of a re-publication)" if session_versions == 0 else "")))
                         last_seq = pl["seq"]
                         versions.append(pl)
                         session_versions += 1
@@ -746,13 +753,7 @@ def oracle(c, out):
 def classify_finding(c, out):
     if c.line.startswith("c10.cleanup"):
         return None
-    try:
-        fails = check(c.line, out)
-    except Exception:
-        return None
-    if fails and all(k == "seq-republish" for k, _ in fails):
-        return "C10-republish-media-sequence-restarts"
-    return None
+    return None       # both listed findings are fixed in lal: nothing is excused
 
 
 def neighbors(c, rng):
@@ -776,8 +777,6 @@ def neighbors(c, rng):
     if f[0] != "c10.run":
         return
     evs = f[3].split(",") if f[3] != "-" else []
-    if "D" in evs:        # one session only: re-publish over an old playlist is the listed known finding
-        evs = evs[:evs.index("D") + 1]
     for _ in range(60):
         e2 = [e for e in evs if rng.random() < 0.85]
         cf = f[2].split(":")
